@@ -42,7 +42,7 @@ pub fn build_event(cfg: &gen_::Cfg, wd: &gen_::Workdir, i: u64) -> (Value, Optio
         Err(m) => return (json!({"event":"Panic","op":"build","i":i,"msg":m,"cfg":gen_::cfg_json(cfg)}), None),
     };
     let mut bytes = vec![];
-    if let Err(e) = p.write(&mut bytes) {
+    if let Err(e) = p.write(&mut Plain(&mut bytes)) {
         return (json!({"event":"BuildErr","i":i,"err":err_name(&e),"cfg":gen_::cfg_json(cfg)}), None);
     }
     let q = match guarded(|| Package::parse(&mut &bytes[..])) {
